@@ -49,6 +49,9 @@ P = {
  'C17': dict(families=[('capacity', 200, 3000, 120), ('mixed', 150, 2500, 120), ('entry', 60, 1000, 120), ('iter', 60, 1000, 120)], aspects='RSDA', profiles=['debug', 'release'],
              cross_profile=True,
              theorems=['C17_profile_independent', 'C17_run_profile_independent', 'C17_no_assertion_fires', 'C17_sizes_fit']),
+ 'C06': dict(families=[('mixed', 150, 2500, 120), ('iter', 100, 1500, 120), ('entry', 60, 1000, 120), ('clone', 80, 1200, 120), ('core', 60, 1000, 120)], aspects='RSDK', profiles=['debug', 'release'],
+             theorems=['C06_moves_drop_nothing', 'C06_insert_drops_duplicate_key_only', 'C06_remove_hands_back', 'C06_lookup_drops_nothing', 'C06_reserve_drops_nothing',
+                       'C06_shrink_drops_nothing', 'C06_iter_drops_nothing', 'C06_clear_drops_each_once', 'C06_drop_map_drops_each_once', 'C06_lite_reachable']),
  'C05': dict(families=[('mixed', 120, 2000, 120), ('entry', 80, 1500, 120), ('iter', 80, 1500, 120)], aspects='RS', profiles=['debug', 'release'],
              theorems=['C05_no_fault', 'C05_cursor_agrees']),
 }
